@@ -31,18 +31,18 @@ impl PhoneticMethod {
     /// Creates a new `PhoneticMethod` struct.
     pub(crate) fn new(config: &Config) -> Self {
         // Load candidate selections file.
-        let selections = if let Ok(file) = std::fs::read(config.get_user_phonetic_selection_data())
-        {
-            serde_json::from_slice(&file).unwrap()
-        } else {
-            HashMap::with_hasher(RandomState::new())
-        };
+        // A missing or an unreadable (e.g. truncated by an interrupted save) file means no selections.
+        let selections = std::fs::read(config.get_user_phonetic_selection_data())
+            .ok()
+            .and_then(|file| serde_json::from_slice(&file).ok())
+            .unwrap_or_else(|| HashMap::with_hasher(RandomState::new()));
 
         // Load user's auto correct file.
         let (modified, autocorrect) = {
             if let Ok(mut file) = File::open(config.get_user_phonetic_autocorrect()) {
                 let modified = file.metadata().unwrap().modified().unwrap();
-                let autocorrect = serde_json::from_slice(&read(&mut file)).unwrap();
+                // An unreadable file is treated as an empty one.
+                let autocorrect = serde_json::from_slice(&read(&mut file)).unwrap_or_default();
                 (modified, autocorrect)
             } else {
                 (
@@ -149,11 +149,13 @@ impl Method for PhoneticMethod {
                 .to_string();
             self.selections
                 .insert(typed.word().to_string(), suggestion);
+            // A failed save (missing or read only directory, full disk) must not take
+            // the keyboard down, the selection is still remembered by this instance.
             write(
                 config.get_user_phonetic_selection_data(),
                 serde_json::to_string(&self.selections).unwrap(),
             )
-            .unwrap();
+            .ok();
         }
 
         // Reset to defaults
@@ -165,8 +167,9 @@ impl Method for PhoneticMethod {
             let modified = file.metadata().unwrap().modified().unwrap();
             // Update the auto correct entries if only the file was modified in the meantime.
             if modified > self.modified {
+                // An unreadable file is treated as an empty one.
                 self.suggestion.user_autocorrect =
-                    serde_json::from_slice(&read(&mut file)).unwrap();
+                    serde_json::from_slice(&read(&mut file)).unwrap_or_default();
                 self.modified = modified;
             }
         }
